@@ -329,7 +329,9 @@ def build(ctx):
 
 def judge(ctx, s, ans, rc, err, mod):
     """-> (key, what, found_input) or None"""
-    if any(a == "bad-op" for a in ans) or any(a == "bad-op" for a in mod):
+    # a line the MODEL does not understand is a generator error; one that only the harness refuses (`free k` of an object the real
+    # code never handed out) is a disagreement and is judged below
+    if any(a == "bad-op" for a in mod):
         raise vlib.CheckFailure("mempool scenario %s: a line was not understood (harness %r / model %r)" % (
             s.tag, [l for l, a in zip(s.lines, ans) if a == "bad-op"][:2], [l for l, a in zip(s.lines, mod) if a == "bad-op"][:2]))
     if any("script-error" in a for a in ans):
@@ -407,7 +409,7 @@ def run_units(ctx, stats=None):
         for l, a in zip(s.lines, ans):
             if a.startswith("alloc null"):
                 cov["null_allocs"] += 1
-            elif a.startswith("alloc "):
+            elif ALLOC.match(a):
                 cov["allocs"] += 1
                 w = a.split()
                 if (w[1], w[2]) in seen:
